@@ -60,6 +60,12 @@ D_BRANCH_CHECK = '''                elif (line_format[i] == 'D'):
                         break
 '''
 
+# the refactoring harmless/G6-R1 (renamed loop locals, natural operand order, f-string line; parse: guard clause + flattened loop body)
+G6R1_HEXDUMP_OLD = '    for i in range(0, len(data), bytes_per_line):\n\n        raw  = \'\'\n        text = \'\'\n\n        # Iterate the data for this line.\n        for j, b in enumerate(data[i:i+bytes_per_line]):\n\n            # Add spaces in between each chunk.\n            if 0 != j and 0 == j % bytes_per_chunk:\n                raw += \'  \'\n\n            # Convert to hex string.\n            raw += ("%02X") % (b)\n\n            # Convert to character.\n            text += chr(b) if 0x20 <= b < 0x7f else \'.\'\n\n        # Left justify to pad spaces on the right.\n        raw  = raw.ljust(char_per_line)\n        text = text.ljust(bytes_per_line)\n\n        # Append a new line in the output\n        dump.append(("%08X     %s     %s") % (i, raw, text))\n'
+G6R1_HEXDUMP_NEW = '    for offset in range(0, len(data), bytes_per_line):\n\n        raw  = \'\'\n        text = \'\'\n\n        # Iterate the data for this line.\n        for pos, byte in enumerate(data[offset:offset+bytes_per_line]):\n\n            # Add spaces in between each chunk.\n            if pos != 0 and pos % bytes_per_chunk == 0:\n                raw += \'  \'\n\n            # Convert to hex string.\n            raw += "%02X" % byte\n\n            # Convert to character.\n            text += chr(byte) if 0x20 <= byte < 0x7f else \'.\'\n\n        # Left justify to pad spaces on the right.\n        raw  = raw.ljust(char_per_line)\n        text = text.ljust(bytes_per_line)\n\n        # Append a new line in the output\n        dump.append(f\'{offset:08X}     {raw}     {text}\')\n'
+G6R1_PARSE_OLD = "        prev_byte_is_high_nibble = False\n        # Note: sometimes last line of hexdump is shorter than line format\n        if len(line) <= len(line_format):\n            for i in range(len(line)):\n                if (line_format[i] == 'A'):\n                    if not hex_digit.match(line[i]):\n                        break\n                elif (line_format[i] == 'D'):\n                    if not hex_digit.match(line[i]):\n                        break\n                    if prev_byte_is_high_nibble:\n                        byte_val = bytes.fromhex(line[(i-1):(i+1)])\n                        data.extend(byte_val)\n                        prev_byte_is_high_nibble = False\n                    else:\n                        prev_byte_is_high_nibble = True\n                elif (line_format[i] == 'C'):\n                    continue\n                elif (line_format[i] != line[i]):\n                    break\n    return data"
+G6R1_PARSE_NEW = "        # Note: sometimes last line of hexdump is shorter than line format\n        if len(line) > len(line_format):\n            continue\n        have_high_nibble = False\n        for i in range(len(line)):\n            format_char = line_format[i]\n            if format_char == 'C':\n                continue\n            if format_char != 'A' and format_char != 'D':\n                # Literal character: must be present in the line\n                if format_char != line[i]:\n                    break\n                continue\n            # Address or data position: must hold a hex digit\n            if not hex_digit.match(line[i]):\n                break\n            if format_char == 'D':\n                if have_high_nibble:\n                    data.extend(bytes.fromhex(line[(i-1):(i+1)]))\n                have_high_nibble = not have_high_nibble\n    return data"
+
 MUTANTS = [
     # ---------------- behaviour-changing: hexdump ----------------
     ('hd-assert-bound', C, sub(HD, 'assert 1 <= bytes_per_line <= 256,', 'assert 1 <= bytes_per_line <= 255,')),
@@ -176,6 +182,16 @@ MUTANTS = [
     ('module-list-constant-element-stored', C, sub(DP, "\n\n# Divider line between", "\nHEX_DUMP_LINE_FORMATS[0] = HEX_DUMP_LINE_FORMATS[1]\n\n\n# Divider line between")),
     ('module-buffer-names-extended', C, lambda files: files.__setitem__(TR, files[TR] + "\nTraceBufferHeader.BUFFER_NAMES.append('XXXX')\n")),
     ('module-math-shadowed', C, sub(HD, 'import math\n', 'import math\nfrom io_drawer import utils as math\n')),
+    # ---------------- behaviour-changing, on top of the refactored form harmless/G6-R1 ----------------
+    ('g6-guard-comparison', C, seq(sub(HD, G6R1_PARSE_OLD, G6R1_PARSE_NEW), sub(HD, 'if len(line) > len(line_format):', 'if len(line) >= len(line_format):'))),
+    ('g6-toggle-replaced-by-set', C, seq(sub(HD, G6R1_PARSE_OLD, G6R1_PARSE_NEW), sub(HD, 'have_high_nibble = not have_high_nibble', 'have_high_nibble = True'))),
+    ('g6-literal-continue-dropped', C, seq(sub(HD, G6R1_PARSE_OLD, G6R1_PARSE_NEW),
+                                           sub(HD, '                if format_char != line[i]:\n                    break\n                continue\n',
+                                               '                if format_char != line[i]:\n                    break\n'))),
+    ('g6-ascii-column-test', C, seq(sub(HD, G6R1_PARSE_OLD, G6R1_PARSE_NEW), sub(HD, "if format_char == 'C':", "if format_char == 'c':"))),
+    ('g6-flag-initialised-per-file', C, seq(sub(HD, G6R1_PARSE_OLD, G6R1_PARSE_NEW),
+                                            sub(HD, '        have_high_nibble = False\n', ''),
+                                            sub(HD, '    data = bytearray()\n    for line in lines:', '    data = bytearray()\n    have_high_nibble = False\n    for line in lines:'))),
     # ---------------- behaviour-preserving ----------------
     ('p-hd-locals-renamed', P, in_func(HD, 'hexdump', lambda s: rename('raw', 'hexcol')(rename('text', 'asc')(rename('dump', 'out')(rename('i', 'off')(
         rename('num_chunks', 'chunks')(s))))))),
@@ -206,6 +222,8 @@ MUTANTS = [
     ('p-hd-width-inlined', P, seq(sub(HD, '    num_chunks = math.ceil(bytes_per_line / bytes_per_chunk)\n', ''),
                                   sub(HD, '(2 * num_chunks)', '(2 * math.ceil(bytes_per_line / bytes_per_chunk))'))),
     ('p-hd-line-temporary', P, sub(HD, APPEND, '        entry = ("%08X     %s     %s") % (i, raw, text)\n        dump.append(entry)\n')),
+    ('p-G6-R1-refactoring', P, seq(sub(HD, G6R1_HEXDUMP_OLD, G6R1_HEXDUMP_NEW), sub(HD, G6R1_PARSE_OLD, G6R1_PARSE_NEW))),
+    ('p-G6-R1-parse-only', P, sub(HD, G6R1_PARSE_OLD, G6R1_PARSE_NEW)),
     ('p-ps-locals-renamed', P, in_func(HD, 'parse', lambda s: rename('prev_byte_is_high_nibble', 'pending')(rename('byte_val', 'bv')(rename('hex_digit', 'hx')(
         rename('line', 'row')(rename('i', 'k')(s))))))),
     ('p-ps-params-renamed', P, in_func(HD, 'parse', lambda s: rename('line_format', 'template')(rename('lines', 'rows')(s)))),
